@@ -271,11 +271,16 @@ def r3_effects(ctx, fields, setters, pairing):
     run_fn = c03.side_number_runner(ctx, rid, ("make",))
     if run_fn is not None:
         for t in (0, 1):
-            r1 = run_fn("make", t, 1000)
-            ok = set(r1) == {(1 - t, 1000 + t)}
+            # "any full-move number": also beyond the ranges of narrower integer types an intermediate value might take
+            r1, n0 = None, 1000
+            for n0 in (1000, 1, 40000, 70000, 3000000000):
+                r1 = run_fn("make", t, n0)
+                if set(r1) != {(1 - t, n0 + t)}:
+                    break
+            ok = set(r1) == {(1 - t, n0 + t)}
             ctx.ob(rid, "make|side-flipped-and-number-adds-mover-colour|turn=%d" % t, ok,
-                   "" if ok else "make with turn=%d (%s to move): over its feasible paths (side, change of the full-move number) becomes %s; expected exactly (%d, %+d): the side flips on every move and the number grows after black's move only" % (
-                       t, "black" if t else "white", sorted((a, b - 1000 if isinstance(b, int) else b) for a, b in r1), 1 - t, t), ctx.where(mk))
+                   "" if ok else ("at full-move number %d: " % n0) + "make with turn=%d (%s to move): over its feasible paths (side, change of the full-move number) becomes %s; expected exactly (%d, %+d): the side flips on every move and the number grows after black's move only" % (
+                       t, "black" if t else "white", sorted((a, b - n0 if isinstance(b, int) else b) for a, b in r1), 1 - t, t), ctx.where(mk))
 
 
 UNCONDITIONAL_SETTERS = ("set_en_passant_attack", "set_next_en_passant_square", "set_piece_moved", "set_piece_attacked", "set_source_square",
